@@ -493,6 +493,34 @@ pub fn entitlements_after_task(r: &mut Runner, task: &str, ran_on: usize) {
                 serde_json::to_value(resp.classes()).ok()
             });
             r.world.inst(ran_on).enter();
+            // The summary of all resources received from this parent is
+            // the union of the classes; judged where there is one class
+            // (the union of overlapping classes is not normalised by
+            // rpki-rs, see the known findings).
+            if let Some(list) = shown.as_array() {
+                if list.len() <= 1 {
+                    let all = status.get("parents").and_then(|p| p.get(&parent))
+                        .and_then(|p| p.get("all_resources")).cloned()
+                        .unwrap_or(Value::Null);
+                    let class_res = list.first()
+                        .and_then(|c| c.get("resource_set")).cloned()
+                        .unwrap_or_else(|| serde_json::json!({
+                            "asn": "", "ipv4": "", "ipv6": ""
+                        }));
+                    if all != class_res {
+                        r.violation(
+                            "C19", "all_resources_differ",
+                            format!(
+                                "after task {name}: the status of CA {ca} \
+                                 for parent {parent} summarises the \
+                                 resources received as {all} while the \
+                                 entitlements it shows are {}",
+                                brief(&shown)
+                            )
+                        );
+                    }
+                }
+            }
             if let Some(expected) = expected {
                 let expected = classes_sorted(Some(&expected));
                 r.ext.c19.entitlement_checks += 1;
